@@ -7,7 +7,7 @@ import subprocess
 from .. import psi, arith, mir, core
 from ..psi import fmt
 from . import common
-from .seqlock_model import (WriterModel, ReaderModel, REL_OK, ACQ_OK, classify_effects, DATA_WRITES, ATOMIC_WRITES,
+from .seqlock_model import (record_coverage, is_record_read, read_terms, WriterModel, ReaderModel, REL_OK, ACQ_OK, classify_effects, DATA_WRITES, ATOMIC_WRITES,
                             atomic_kind)
 
 LEVEL = 'other'
@@ -97,6 +97,16 @@ def run_rules(ctx, chk):
                 chk.ob('C02.S1', 'write:release-store-of-even-after-copy', fin_ok, d.site, detail)
                 chk.ob('C02.S1', 'write:no-copy-after-final-store', not [x for x in dws if after and x.n > after[-1].n], d.site,
                        'record writes after the final generation store: %d' % len([x for x in dws if after and x.n > after[-1].n]))
+            # S6: what is published under one generation is the whole record: the writes between the two generation stores
+            # cover every field (one whole-record copy, or field-by-field copies that leave nothing out)
+            if dws:
+                cov, unc, misal, unk = record_coverage(fb, p, evs, 'dwrite')
+                chk.ob('C02.S6', 'write:record-fully-copied', not unc, dws[0].site,
+                       'record fields written between the odd and the even generation store: %s%s' % (
+                           cov, '' if not unc else '; NOT written: %s%s -- readers accept the new generation with the old %s' % (
+                               unc, ' (%d write(s) of unknown extent)' % len(unk) if unk else '', '/'.join(unc))))
+                chk.ob('C02.S6', 'write:accesses-follow-record-layout', not misal, dws[0].site,
+                       'record writes that do not start and end on a field boundary of the published layout: %s' % [(e.site, lo, hi) for e, lo, hi in misal])
         chk.floor('C02.S1', 'writer paths', n_feasible, 1)
 
     # ---------------------------------------------------------------- S2 / S3 reader
@@ -129,14 +139,21 @@ def run_rules(ctx, chk):
                 else:
                     chk.ob('C02.S2', 'snapshot:reload-after-copy', False, d.site, 'record copy is not followed by a generation re-load')
             # acceptance: a path that assigns the cache
-            cache_fields = [k for k, v in stores.items() if v[0] == 't' and v[1] == 'call' and 'read' in v[2][0]]
+            cache_fields = [k for k, v in stores.items() if is_record_read(v)]
             if cache_fields:
                 n_accept += 1
                 cf = cache_fields[0]
                 val = stores[cf]
-                # same-iteration read
-                same = any(d.term == val for d in drs)
+                # same-iteration read: every part of the cached value was read from the segment on this iteration, and the
+                # reads cover the whole record (one whole-record read, or field reads that leave nothing out)
+                same = all(t_ in [d.term for d in drs] for t_ in read_terms(val))
                 chk.ob('C02.S3', 'snapshot:cache-from-this-read', same, p.where[2], 'cache <- %s' % fmt(val)[:80])
+                cov, unc, misal, unk = record_coverage(fb, p, [e for e in evs if e.kind != 'dread' or e.term in read_terms(val)], 'dread')
+                chk.ob('C02.S6', 'snapshot:record-fully-copied', not unc, p.where[2],
+                       'record fields read into the cache: %s%s' % (cov, '' if not unc else '; NOT read: %s -- the cached record keeps '
+                                                                    'their old / default values under the new generation' % unc))
+                chk.ob('C02.S6', 'snapshot:accesses-follow-record-layout', not misal, p.where[2],
+                       'record reads that do not start and end on a field boundary of the published layout: %s' % [(e.site, lo, hi) for e, lo, hi in misal])
                 # accepted on equality of the two loads, even
                 eq_ok = False
                 even_ok = False
@@ -158,8 +175,8 @@ def run_rules(ctx, chk):
             elif p.kind == 'return' and p.value[0] == 'agg' and p.value[2] == 'Ok':
                 chk.ob('C02.S3', 'snapshot:ok-returns-cache-field', cache is not None and not cache.startswith('<'), p.where[2],
                        'Ok result is %s' % (('&self.%s' % cache) if cache else fmt(p.value)[:80]))
-                chk.ob('C02.S3', 'snapshot:cache-untouched-without-accept', not [k for k in stores if k == cache], p.where[2],
-                       'fields assigned on a non-accepting path: %s' % sorted(stores))
+                chk.ob('C02.S3', 'snapshot:cache-untouched-without-accept', not [k for k in stores if r.is_cache_field(k)], p.where[2],
+                       'cache fields assigned on a non-accepting path: %s' % sorted(k for k in stores if r.is_cache_field(k)))
         # the cache snapshot() falls back on starts out as the reader's empty initial record: the constructor may not fill
         # it (or the cached generation) from the mapping, where an update can be in flight
         rnew = [b for b in fb.bodies(common.SHM) if b.name == 'new' and (b.impl_self or '').endswith('ShmReader') and b.defkind != 'Closure']
